@@ -13,7 +13,7 @@ use crate::Ctx;
 
 /// ancillary chunks with specification-conformant payload sizes and positions
 pub fn gen_meta(rng: &mut Rng, img: &HImg, with_icc: bool) -> EncOpts {
-    let mut e = EncOpts { level: *rng.choose(&[1u8, 6, 9]), idat_parts: if rng.chance(1, 4) { 2 } else { 1 }, ..Default::default() };
+    let mut e = EncOpts { level: *rng.choose(&[1u8, 6, 9]), idat_parts: if rng.chance(1, 4) { 2 } else { 1 }, empty_idat: if rng.chance(1, 5) { rng.below(16) as u8 } else { 0 }, ..Default::default() };
     let ch = channels(img.ct);
     let anywhere = |rng: &mut Rng| -> ([u8; 4], Vec<u8>) {
         match rng.below(5) {
